@@ -208,8 +208,8 @@ func inRange(k string, p, s *string) bool {
 // enabled reports whether the op applies in this model state.
 func (m *model) enabled(o op, lazy bool) bool {
 	switch o.Kind {
-	case "uput", "udel":
-		return !m.lazyRaw
+	case "initunder":
+		return lazy && m.lazyRaw
 	case "snap":
 		return m.snap == nil
 	case "snaprel":
@@ -261,6 +261,8 @@ func (m *model) step(o op) {
 		m.under[o.K] = o.V
 	case "udel":
 		delete(m.under, o.K)
+	case "initunder":
+		m.lazyRaw = false // InitUnderlyingDb attaches the produced store: its content becomes visible
 	case "snap":
 		m.snap = m.view()
 		dirty = false
@@ -380,6 +382,10 @@ func exec(e *env, m *model, o op) (msg string) {
 		}
 	case "drop":
 		e.f.DropNotFlushed()
+	case "initunder":
+		if _, err := e.lazy.InitUnderlyingDb(); err != nil {
+			return "InitUnderlyingDb error " + err.Error()
+		}
 	case "uput":
 		e.u.Put([]byte(o.K), []byte(o.V))
 	case "udel":
@@ -565,7 +571,7 @@ func main() {
 		}
 	}
 	ops = append(ops, op{Kind: "batch", B: nil})
-	ops = append(ops, op{Kind: "flush"}, op{Kind: "drop"})
+	ops = append(ops, op{Kind: "flush"}, op{Kind: "drop"}, op{Kind: "initunder"})
 	for _, k := range []string{"a", "ab", "b"} {
 		ops = append(ops, op{Kind: "uput", K: k, V: "u"}, op{Kind: "udel", K: k})
 	}
@@ -702,6 +708,6 @@ func main() {
 	c.Set("exhaustive_note", "exhaustive = every operation of the alphabet executed in every abstract state reachable within depth_bound (state cap flags say if the model BFS was cut)")
 	c.Set("dedup_argument", "abstract state = underlying contents + overlay incl. tombstones + live snapshot contents + open-iterator (range, cursor, cleanliness, life-time view history); these determine every later observable of the model, and every real transition is re-validated by full observation, so hidden real state (tree shape, size estimate) cannot be merged away unnoticed along the paths explored")
 	c.Assume("an iterator that spans later writes/flushes/drops is held only to the weakly-consistent contract (ascending, in range, every returned pair was in the view at some moment of its life, no key that stayed present and unchanged is skipped); the statement promises no snapshot isolation for iterators")
-	c.Assume("LazyFlushable: the underlying store is not written directly before its first Flush (before that it is not yet attached by design)")
+	c.Assume("LazyFlushable: before its first Flush / InitUnderlyingDb the produced store is not attached by design, so its content is invisible; both attach it")
 	c.Finish()
 }
